@@ -169,66 +169,78 @@ def instr_modes(I):
     return modes
 
 
-def compile_units(us, gname, scratch, gflags):
-    """one executable for a list of units -> (ok, log, exe, {unit name: tag})"""
+def prepare_units(us, gname, scratch):
+    """exo side (serial: exo's analyses are not thread safe): one C translation unit for a list of units"""
     import c14_exo
     c, h = c14_exo.compile_group(us, gname + ".h")
     tags = {u["name"]: i for i, u in enumerate(us)}
     main = RUN.PRELUDE + '#include "%s.h"\n' % gname + "".join(RUN.instr_function(u, tags[u["name"]]) for u in us) \
         + RUN.dispatch_main(range(len(us)))
-    exe = scratch / "units" / gname / "unit"
-    ok, log = RUN.compile_c({gname + ".h": h, gname + ".c": c, "main.c": main}, exe, gflags)
-    if ok:
-        for u in us:
-            u["c_t"] = c
-    return ok, log, exe, tags
+    return dict(us=us, gname=gname, c=c, tags=tags, exe=scratch / "units" / gname / "unit",
+                files={gname + ".h": h, gname + ".c": c, "main.c": main})
 
 
 def build_groups(ck, good, scratch, flags, byname):
     """group the units by variant into few translation units; units whose C gcc rejects are singled out.
     Instructions without a vector-register operand are compiled on their own (nothing else pulls in
-    <immintrin.h> for them).  -> ({unit name: (exe, tag)}, {unit name: gcc log})"""
-    import c14_exo
+    <immintrin.h> for them).  A cache of the units that failed last time (a grouping HINT only: every unit is
+    compiled on every run) avoids re-discovering them by repeated group compiles.
+    -> ({unit name: (exe, tag)}, {unit name: gcc log})"""
+    cache = common.SCRATCH / "c14_cache" / "failing_units.json"
+    try:
+        hint = set(json.loads(cache.read_text()))
+    except Exception:
+        hint = set()
     built, failed = {}, {}
     groups = {}
     for u in good:
-        alone = not any(a["kind"] == "reg" for a in byname[u["instr"]]["sig"])
+        alone = not any(a["kind"] == "reg" for a in byname[u["instr"]]["sig"]) or u["name"] in hint
         groups.setdefault(u["name"] if alone else "grp_" + u["variant"], []).append(u)
-    for g, us in sorted(groups.items()):
-        remaining = list(us)
-        extra = []
-        for attempt in range(6):
-            if not remaining:
-                break
-            ok, log, exe, tags = compile_units(remaining, "%s_%d" % (g, attempt), scratch, flags + extra)
+    pending = [(g, us, []) for g, us in sorted(groups.items())]      # (name, units, extra gcc flags)
+    for rnd in range(8):
+        if not pending:
+            break
+        preps = [(prepare_units(us, "%s_r%d" % (g, rnd), scratch), g, extra) for g, us, extra in pending]
+        results = RUN.pool_map(lambda p: RUN.compile_c(p[0]["files"], p[0]["exe"], flags + p[2]), preps, workers=8)
+        pending = []
+        for (prep, g, extra), (ok, log) in zip(preps, results):
+            us = prep["us"]
             if ok:
-                for u in remaining:
-                    built[u["name"]] = (exe, tags[u["name"]])
-                break
-            if len(remaining) == 1 and not extra and re.search(r"implicit declaration of function\W+_mm", log):
-                u = remaining[0]
-                errs = [l.strip() for l in log.splitlines() if "implicit declaration" in l or "undefined reference" in l][:3]
-                c, _ = c14_exo.compile_group([u], "x.h")
-                ck.violation("x86:%s:missing-include" % u["instr"],
-                             {"instr": u["instr"], "variant": u["variant"], "procedure": u["src"], "generated_c": c[-1500:],
-                              "gcc_errors": errs},
-                             "a procedure that only calls %s compiles to C without #include <immintrin.h>: %s"
-                             % (u["instr"], "; ".join(errs)[:300]))
-                extra = ["-include", "immintrin.h"]
+                for u in us:
+                    u["c_t"] = prep["c"]
+                    built[u["name"]] = (prep["exe"], prep["tags"][u["name"]])
+                continue
+            if len(us) == 1:
+                u = us[0]
+                u["c_t"] = prep["c"]
+                if not extra and re.search(r"implicit declaration of function\W+_mm", log):
+                    errs = [l.strip() for l in log.splitlines() if "implicit declaration" in l or "undefined reference" in l][:3]
+                    ck.violation("x86:%s:missing-include" % u["instr"],
+                                 {"instr": u["instr"], "variant": u["variant"], "procedure": u["src"],
+                                  "generated_c": prep["c"][-1500:], "gcc_errors": errs},
+                                 "a procedure that only calls %s compiles to C without #include <immintrin.h>: %s"
+                                 % (u["instr"], "; ".join(errs)[:300]))
+                    pending.append((g, us, ["-include", "immintrin.h"]))
+                else:
+                    failed[u["name"]] = log
                 continue
             bad = RUN.failing_functions(log)
-            bad_units = [u for u in remaining if u["t_name"] in bad or u["ref_name"] in bad]
+            bad_units = [u for u in us if u["t_name"] in bad or u["ref_name"] in bad]
             if not bad_units:           # cannot attribute: compile every unit on its own
-                bad_units = remaining
+                bad_units = us
             for u in bad_units:
-                ok1, log1, exe1, tags1 = compile_units([u], "single_" + u["name"], scratch, flags + ["-include", "immintrin.h"])
-                if ok1:
-                    built[u["name"]] = (exe1, 0)
-                else:
-                    c, _ = c14_exo.compile_group([u], "x.h")
-                    u["c_t"] = c
-                    failed[u["name"]] = log1
-            remaining = [u for u in remaining if u not in bad_units]
+                pending.append(("single_" + u["name"], [u], ["-include", "immintrin.h"]))
+            rest = [u for u in us if u not in bad_units]
+            if rest:
+                pending.append((g, rest, extra))
+    for g, us, extra in pending:
+        for u in us:
+            failed.setdefault(u["name"], "not built after 8 rounds")
+    try:
+        cache.parent.mkdir(parents=True, exist_ok=True)
+        cache.write_text(json.dumps(sorted(failed)))
+    except Exception:
+        pass
     return built, failed
 
 
@@ -246,7 +258,10 @@ def run_instrs(ck, flags, instrs, driver, scratch, variants):
     rng = ck.rng
     host = [I for I in instrs if not (any(a.get("mem") == "AVX512" for a in I["sig"]) and "avx512f" not in flags)]
     not_runnable = [I["name"] for I in instrs if I not in host]
+    import time as _t
+    t0 = _t.time()
     units = c14_exo.build_units(host, variants, scratch, log=ck.log)
+    ck.log("exo built %d test procedures in %.0fs" % (len(units), _t.time() - t0))
     byname = {I["name"]: I for I in instrs}
     good = []
     for u in units:
@@ -258,7 +273,9 @@ def run_instrs(ck, flags, instrs, driver, scratch, variants):
         else:
             good.append(u)
     good.sort(key=lambda u: (u["instr"], u["variant"]))
+    t0 = _t.time()
     built, failed = build_groups(ck, good, scratch, RUN.gcc_flags(flags), byname)
+    ck.log("gcc: %d units built, %d rejected, %.0fs" % (len(built), len(failed), _t.time() - t0))
     compiled_A = set()
     nrep = ck.n(4, 40)
     jobs, meta = [], []
@@ -266,7 +283,7 @@ def run_instrs(ck, flags, instrs, driver, scratch, variants):
         I = byname[u["instr"]]
         if u["name"] in failed:
             log = failed[u["name"]]
-            errs = [l.strip() for l in log.splitlines() if re.search(r"\\berror\\b", l) and "ld returned" not in l][:3]
+            errs = [l.strip() for l in log.splitlines() if " error: " in l and "ld returned" not in l][:3]
             what = "does-not-compile"
             if u["literal"] is None and any(a["kind"] == "size" for a in I["sig"]) and "must be a constant" in log:
                 what = "runtime-size-does-not-compile"
@@ -380,8 +397,11 @@ def run(ck: common.Check):
     scratch = common.scratch_dir("c14")
 
     # 1. translator + proofs
+    import time as _t
+    t0 = _t.time()
     gen_ok = ck.gen(ENGINE)
     build_ok = ck.coq_build(ENGINE) if gen_ok else False
+    ck.log("translator + coq build: %.0fs (ok=%s)" % (_t.time() - t0, build_ok))
     if not gen_ok:
         ck.log("translator failed: the search below still runs on whatever exo itself accepts")
     instrs = json.loads((XD / "_build" / "instrs.json").read_text()) if gen_ok else None
@@ -415,7 +435,9 @@ def run(ck: common.Check):
     validated, skipped = {}, []
     if ext_ok and driver.exists():
         probes = json.loads((XD / "_build" / "probes.json").read_text())
+        t0 = _t.time()
         validated, skipped = run_probes(ck, flags, probes, driver, scratch)
+        ck.log("probes: %.0fs, %s" % (_t.time() - t0, {k: v for k, v in ck.stream("probe").items() if k != "distribution"}))
         used = sorted({c for I in instrs for c in I["calls"]})
         not_validated = [c for c in used if c not in validated and not any(c in I["unmodelled"] for I in instrs)]
         runnable_used = [c for c in used if not (c.startswith("_mm512") and "avx512f" not in flags)]
@@ -430,7 +452,11 @@ def run(ck: common.Check):
     variants = ["A", "B", "L"] if ck.thorough else ["A", "B", "L"]
     units, not_runnable = [], []
     if ext_ok and driver.exists():
+        t0 = _t.time()
         units, not_runnable = run_instrs(ck, flags, instrs, driver, scratch, variants)
+        ck.log("instruction search + correspondence: %.0fs" % (_t.time() - t0))
+        for st in ("instr-search", "instr-frag", "instr-body"):
+            ck.log(st, {k: v for k, v in ck.stream(st).items() if k in ("cases", "agree", "diverge")})
 
     ck.cov["rule"] = (
         "obligations: one Coq theorem per @instr of exo/platforms/x86.py about the generated (fragment, body) terms "
